@@ -74,6 +74,17 @@ func (g *G) chaosWrap(sc []string, e *Expr, depth int) *Expr {
 				}
 				return &Expr{Op: "int", I: int64(g.Intn(int(ints))) + base}
 			}
+			if g.Chance(12) {
+				// a short range at the edge of the integers (a handful of elements at most: finite data
+				// however the end of the number line is met)
+				const maxI = int64(1<<63 - 1)
+				k := int64(1 + g.Intn(9))
+				lo, hi := maxI-k, maxI-int64(g.Intn(int(k)))
+				if g.Chance(30) {
+					lo, hi = -maxI, -maxI+k
+				}
+				return &Expr{Op: "list", Args: []*Expr{e, {Op: "call", Name: "range", Args: []*Expr{{Op: "int", I: lo}, {Op: "int", I: hi}, {Op: "int", I: int64(1 + g.Intn(12))}}}}}
+			}
 			r := []*Expr{small(20, -5), small(2000, 0), small(7, -3)}[:1+g.Intn(3)]
 			return &Expr{Op: "list", Args: []*Expr{e, {Op: "call", Name: "range", Args: r}}}
 		}
